@@ -10,7 +10,7 @@ Domain: decodable strings of the C01 byte space without superfluous prefix (deci
 """
 import sys
 from vlib import runner, refs, nf, x86space
-from checks.c01_decode import row_key, lock_ok, split_prefixes
+from checks.c01_decode import row_key, lock_ok, split_prefixes, pnorm, dropped_prefix
 from checks.c03_roundtrip import nf_features
 
 FMT = {"intel": "intel_syntax noprefix", "att": "att_syntax binutils", "intel-objdump": "intel_syntax objdump", "att-objdump": "att_syntax objdump"}
@@ -48,8 +48,12 @@ def sigkey(part, kind, b, l, n1):
     if "@" in kind or kind.startswith("exc"):
         return (part, kind)
     ft = nf_features(n1)
+    if "16-bit-addressing" in ft:
+        return (part, kind, ft)          # neither assembler front end has 16-bit addressing at all: one root cause, nothing in it can regress
     if ft:
-        return (part, kind, ft)
+        # the feature alone is too coarse to list (it would cover any later defect that involves a segment override or an absolute address)
+        rk = row_key(b, l)
+        return (part, kind, ft, rk[0], rk[1], n1.mn)
     rk = row_key(b, l)
     return (part, kind, rk[0], rk[1], n1.mn)
 
@@ -96,18 +100,25 @@ def worker(run, st_, k, chunk):
         fails = []
         ri = masm(False, texts["intel"])
         ra = masm(True, texts["att"])
+        # membership is judged modulo the order of the prefix bytes, which carries no meaning
+        if ri[0] != "exc" and bl not in ri[1] and pnorm(bl) in [pnorm(x) for x in ri[1]]:
+            ri = (ri[0], list(ri[1]) + [bl])
+        if ra[0] != "exc" and bl not in ra[1] and pnorm(bl) in [pnorm(x) for x in ra[1]]:
+            ra = (ra[0], list(ra[1]) + [bl])
         if ri[0] == "exc":
             fails.append((sigkey("intel-parser", "raises:" + ri[1], b, l, n1), "%s renders as %r; asm() raised %s" % (bl.hex(), texts["intel"], ri[1])))
         elif bl not in ri[1] and not canonical:
             st_.exclude("non_canonical_encoding_not_demanded_back")
         elif bl not in ri[1]:
-            fails.append((sigkey("intel-parser", "original-missing", b, l, n1), "%s renders as %r; asm() gives %s" % (bl.hex(), texts["intel"], sorted(x.hex() for x in ri[1])[:5])))
+            dp = dropped_prefix(bl, ri[1])
+            fails.append((("intel-parser", "original-missing:prefix-%s-dropped" % dp) if dp else sigkey("intel-parser", "original-missing", b, l, n1), "%s renders as %r; asm() gives %s" % (bl.hex(), texts["intel"], sorted(x.hex() for x in ri[1])[:5])))
         if ra[0] == "exc":
             fails.append((sigkey("att-parser", "raises:" + ra[1], b, l, n1), "%s renders as %r; asm_att() raised %s" % (bl.hex(), texts["att"], ra[1])))
         elif bl not in ra[1] and not canonical:
             st_.exclude("non_canonical_encoding_not_demanded_back")
         elif bl not in ra[1]:
-            fails.append((sigkey("att-parser", "original-missing", b, l, n1), "%s renders as %r; asm_att() gives %s" % (bl.hex(), texts["att"], sorted(x.hex() for x in ra[1])[:5])))
+            dp = dropped_prefix(bl, ra[1])
+            fails.append((("att-parser", "original-missing:prefix-%s-dropped" % dp) if dp else sigkey("att-parser", "original-missing", b, l, n1), "%s renders as %r; asm_att() gives %s" % (bl.hex(), texts["att"], sorted(x.hex() for x in ra[1])[:5])))
         for var, att, plain in (("intel-objdump", False, ri), ("att-objdump", True, ra)):
             if texts[var] is None:
                 continue
